@@ -764,6 +764,11 @@ class Interp:
             # elements are pairwise unequal, so identity coincides with equality
             r = eq(a, b)
             return r if isinstance(op, ast.Is) else not_(r)
+        if isinstance(op, (ast.Is, ast.IsNot)):
+            f = getattr(type(a), '_sym_is', None) or getattr(type(b), '_sym_is', None)
+            if f is not None:   # objects that model "the i-th element of a list": identical iff same list and index
+                r = f(a, b) if getattr(type(a), '_sym_is', None) else f(b, a)
+                return r if isinstance(op, ast.Is) else not_(r)
         if isinstance(op, ast.Is):
             return _is(a, b)
         if isinstance(op, ast.IsNot):
